@@ -27,6 +27,8 @@ func init() {
 	generators["sinkrace"] = genSinkRace
 	generators["priosucc"] = genPrioSucc
 	generators["healthleak"] = genHealthLeak
+	generators["holdrace"] = genHoldRace
+	generators["twocause"] = genTwoCause
 }
 
 func anyLatency(r rng, h time.Duration) Latency {
@@ -1505,6 +1507,187 @@ func genHealthLeak(r rng, k int) *Spec {
 		s.Actions = append(s.Actions, rel)
 	}
 	s.Duration = s.TTL + time.Duration(m+8)*h + 2*sec
+	s.Sample = sampleFor(h)
+	return s
+}
+
+// ---------------------------------------------------------------------------
+// holdrace: a scenario of another class, plus one reaction: the library is held at one of
+// its calls into user code (any of its log lines through the Logger, a metrics call, a
+// health check) - wherever that call sits, inside or outside a critical section - and at
+// that very instant a racing event is fired (stop variants, Start, a validation, a forged
+// record, deletion, expiry, a connection notification); the other goroutines get real
+// time to run into whatever they run into; then the held call returns. No virtual time
+// passes between hold and release.
+// ---------------------------------------------------------------------------
+
+var hrLogs = []string{
+	"leader_demoted", "token_validation_failed", "state_transition", "election_stopped", "reconnect_verification_failed",
+	"heartbeat_failed", "priority_takeover_success", "leadership_taken_over", "leadership_lost_via_watcher", "key_deletion_failed",
+	"health_check_failed", "connection_disconnected", "acquire_failed_max_retries", "acquire_completed_while_leader_ignored",
+	"acquire_completed_after_stop_ignored", "acquire_answer_after_ttl_ignored", "verifying_leadership_after_reconnect",
+	"reconnect_verification_success", "priority_takeover_opportunity", "leader_promoted", "leader_changed_periodic_check",
+	"leader_changed", "key_deleted", "election_started", "connection_reconnected_before_grace_period", "connection_reconnected",
+	"acquire_success", "watch_failed", "demoting_due_to_validation_failure", "demoting_due_to_reconnect_verification_failure",
+	"demoting_due_to_heartbeat_failure", "demoting_due_to_health_check_failure", "demoting_due_to_connection_loss", "acquire_failed",
+	"watch_started", "watch_event_key_empty", "watch_event_key_deleted", "watch_closed", "token_validation_recovered",
+	"priority_takeover_failed", "key_not_found_triggering_reelection", "key_empty_triggering_reelection", "heartbeat_recovered",
+	"health_check_recovered", "attempting_acquire_with_retry", "acquire_retry", "shutdown_timeout", "shutdown_cancelled",
+}
+var hrMetrics = []string{"metric:transition:LEADER", "metric:transition:FOLLOWER", "metric:transition:STOPPED", "metric:leaderdur", "metric:isleader:0", "metric:isleader:1"}
+var hrRaces = []string{"stop", "stopdel", "stopnowait", "stopshort", "start", "restart", "ordemote", "validate", "forge", "outdel", "outexpire", "connD", "connR", "connC"}
+var hrBases = []string{"multiterm", "connection", "lifecycle", "benign"}
+
+func genHoldRace(r rng, k int) *Spec {
+	base := hrBases[k%len(hrBases)]
+	var s *Spec
+	if base == "benign" {
+		s = genBenign(r)
+	} else {
+		s = generators[base](r, k/len(hrBases))
+	}
+	x := s.Insts[r.IntN(len(s.Insts))]
+	op := ""
+	switch {
+	case r.chance(0.2):
+		op = hrMetrics[r.IntN(len(hrMetrics))]
+	case x.HealthOn && r.chance(0.15):
+		op = "health:" + r.pickS("h", "u")
+	default:
+		op = "log:" + hrLogs[(k/len(hrBases))%len(hrLogs)]
+	}
+	race := hrRaces[r.IntN(len(hrRaces))]
+	y := x.Name // the racing event usually concerns the held instance itself
+	if len(s.Insts) > 1 && r.chance(0.25) {
+		y = s.Insts[r.IntN(len(s.Insts))].Name
+	}
+	var ra Action
+	switch race {
+	case "stop":
+		ra = Action{Kind: "stop", Inst: y, Stop: &StopVariant{Plain: true}}
+	case "stopdel":
+		ra = Action{Kind: "stop", Inst: y, Stop: &StopVariant{DeleteKey: true, Wait: true, Timeout: 5 * sec}}
+	case "stopnowait":
+		ra = Action{Kind: "stop", Inst: y, Stop: &StopVariant{DeleteKey: r.chance(0.5), Timeout: 5 * sec}}
+	case "stopshort":
+		ra = Action{Kind: "stop", Inst: y, Stop: &StopVariant{DeleteKey: r.chance(0.5), Wait: r.chance(0.5), Timeout: 200 * ms}}
+	case "start":
+		ra = Action{Kind: "start", Inst: y}
+	case "restart":
+		ra = Action{Kind: "restart", Inst: y, Stop: &StopVariant{Plain: true}}
+	case "ordemote":
+		ra = Action{Kind: "validate", Inst: y, Val: "bg", OrDemote: true}
+	case "validate":
+		ra = Action{Kind: "validate", Inst: y, Val: "bg"}
+	case "forge":
+		ra = Action{Kind: "output", Inst: x.Group, Val: `{"id":"intruder","token":"h"}`}
+	case "outdel":
+		ra = Action{Kind: "outdel", Inst: x.Group}
+	case "outexpire":
+		ra = Action{Kind: "outexpire", Inst: x.Group}
+	default:
+		ra = Action{Kind: "conn", Inst: y, Val: race[4:]}
+	}
+	switch race {
+	case "stop", "stopdel", "stopnowait", "stopshort", "start", "restart":
+		// API use keeps the premises of the base class
+	default:
+		s.Benign = false
+		s.Prompt = false
+	}
+	s.Breaks = append(s.Breaks, BreakSpec{Name: "hr", Client: x.Name, Op: op, Nth: 1 + r.IntN(4), Phase: hrPhase(op), Armed: true})
+	s.Reactions = append(s.Reactions, Reaction{Break: "hr", Actions: []Action{
+		ra,
+		{Kind: "spin", D: r.pickD(200*time.Microsecond, 2*ms, 10*ms)},
+		{Kind: "release", Break: "hr"},
+	}})
+	s.Tags = append(s.Tags, "holdrace", "base:"+base, op, "race:"+race)
+	return s
+}
+
+func hrPhase(op string) string {
+	if strings.HasPrefix(op, "health:") {
+		return "check"
+	}
+	return "sink"
+}
+
+// ---------------------------------------------------------------------------
+// twocause: two demotion causes fire for the same term at the same moment. Cause A is
+// brought about by the scenario and held at the log line that announces it (i.e. after
+// its "am I leader" test, before it takes the flag down); cause B is fired at that
+// instant and runs to completion; then A continues. Exactly one demotion callback.
+// ---------------------------------------------------------------------------
+
+var tcA = []string{"heartbeat", "health", "validation", "connection", "reconnect", "watcher"}
+var tcB = []string{"ordemote", "forge", "stop", "stopctx", "outdel-ordemote"}
+
+// TwoCauseTotal is the size of the enumeration.
+func TwoCauseTotal() int { return len(tcA) * len(tcB) * 3 }
+
+func genTwoCause(r rng, k int) *Spec {
+	idx := k % TwoCauseTotal()
+	a := tcA[idx%len(tcA)]
+	idx /= len(tcA)
+	b := tcB[idx%len(tcB)]
+	idx /= len(tcB)
+	spin := []time.Duration{200 * time.Microsecond, 2 * ms, 10 * ms}[idx%3]
+	h := r.pickD(200*ms, 500*ms)
+	s := &Spec{TTL: time.Duration(r.pickI(3, 5)) * h, NoPreempt: true, Tags: []string{"twocause", "A:" + a, "B:" + b}}
+	s.Lat = Latency{Max: r.pickD(0, 2*ms)}
+	s.Insts = mkInsts(1+r.IntN(2), 1, h)
+	s.Insts[0].BlockPromote = r.chance(0.5)
+	s.Actions = append(s.Actions, Action{At: 10 * ms, Kind: "start", Inst: "i0"})
+	if len(s.Insts) > 1 {
+		s.Actions = append(s.Actions, Action{At: 300 * ms, Kind: "start", Inst: "i1"})
+	}
+	t0 := 2*sec + r.dur(0, h)
+	msg := ""
+	switch a {
+	case "heartbeat":
+		msg = "demoting_due_to_heartbeat_failure"
+		s.Actions = append(s.Actions, Action{At: t0, Kind: "rule", Rule: &FaultRule{Client: "i0", Op: "Update", Kind: "err", Err: r.pickS("timeout", "noresponders", "io")}})
+	case "health":
+		msg = "demoting_due_to_health_check_failure"
+		m := 1 + r.IntN(3)
+		n := int(t0/h) + 1
+		s.Insts[0].Health = strings.Repeat("h", n) + strings.Repeat("u", m) + strings.Repeat("h", 40)
+		s.Insts[0].HealthOn, s.Insts[0].MaxFail = true, m
+	case "validation":
+		msg = "demoting_due_to_validation_failure"
+		s.Insts[0].ValInterval = h
+		s.Actions = append(s.Actions, Action{At: t0, Kind: "rule", Rule: &FaultRule{Client: "i0", Op: "Get", ToOrd: 1 << 20, Kind: "err", Err: r.pickS("timeout", "noresponders", "io")}})
+	case "connection":
+		msg = "demoting_due_to_connection_loss"
+		s.Insts[0].Conn, s.Insts[0].Grace = true, sec+2*h
+		s.Actions = append(s.Actions, Action{At: t0, Kind: "conn", Inst: "i0", Val: "D"})
+	case "reconnect":
+		msg = "demoting_due_to_reconnect_verification_failure"
+		s.Insts[0].Conn, s.Insts[0].Grace = true, 5*sec
+		s.Actions = append(s.Actions, Action{At: t0, Kind: "conn", Inst: "i0", Val: "D"},
+			Action{After: 50 * ms, Kind: "rule", Rule: &FaultRule{Client: "i0", Op: "Get", Kind: "err", Err: "timeout"}},
+			Action{After: 50 * ms, Kind: "conn", Inst: "i0", Val: "R"})
+	case "watcher":
+		msg = "leadership_lost_via_watcher"
+		s.Actions = append(s.Actions, Action{At: t0, Kind: "output", Inst: "g0", Val: `{"id":"intruder","token":"w"}`})
+	}
+	s.Breaks = []BreakSpec{{Name: "tc", Client: "i0", Op: "log:" + msg, Nth: 1, Phase: "sink", Armed: true}}
+	var rb []Action
+	switch b {
+	case "ordemote":
+		rb = []Action{{Kind: "rule", Rule: &FaultRule{Client: "i0", Op: "Get", Kind: "err", Err: "timeout"}}, {Kind: "validate", Inst: "i0", Val: "bg", OrDemote: true}}
+	case "outdel-ordemote":
+		rb = []Action{{Kind: "outdel", Inst: "g0"}, {Kind: "validate", Inst: "i0", Val: "bg", OrDemote: true}}
+	case "forge":
+		rb = []Action{{Kind: "output", Inst: "g0", Val: `{"id":"intruder","token":"b"}`}}
+	case "stop":
+		rb = []Action{{Kind: "stop", Inst: "i0", Stop: &StopVariant{Plain: true}}}
+	case "stopctx":
+		rb = []Action{{Kind: "stop", Inst: "i0", Stop: &StopVariant{DeleteKey: r.chance(0.5), Wait: r.chance(0.5), Timeout: 5 * sec}}}
+	}
+	rb = append(rb, Action{Kind: "spin", D: spin}, Action{Kind: "release", Break: "tc"})
+	s.Reactions = []Reaction{{Break: "tc", Actions: rb}}
+	s.Duration = t0 + 8*sec
 	s.Sample = sampleFor(h)
 	return s
 }
